@@ -289,16 +289,27 @@ func (m Manager) GetNodesDeployCapacity(ctx context.Context, nodenames []string,
 		return nil, 0, err
 	}
 
-	// get nodenames with all resource capacities > 0
-	for _, info := range resps {
-		resp = m.mergeCapacity(resp, info.NodeDeployCapacityMap)
+	// a node is offered only if every plugin offers it: capacity is the smallest one,
+	// usage and rate are the weighted averages of the plugins' values.
+	// plugins are visited in registration order, so the result does not depend on the
+	// (random) iteration order of the response map
+	first := true
+	for _, plugin := range m.plugins {
+		info, ok := resps[plugin]
+		if !ok {
+			continue
+		}
+		resp = m.mergeCapacity(resp, info.NodeDeployCapacityMap, first)
+		first = false
 	}
 	total := 0
 
 	// weighted average
 	for _, info := range resp {
-		info.Rate /= info.Weight
-		info.Usage /= info.Weight
+		if info.Weight != 0 {
+			info.Rate /= info.Weight
+			info.Usage /= info.Weight
+		}
 		if info.Capacity == math.MaxInt64 {
 			total = math.MaxInt64
 		} else {
@@ -370,12 +381,22 @@ func (m Manager) SetNodeResourceCapacity(ctx context.Context, nodename string, n
 	)
 }
 
-func (m Manager) mergeCapacity(m1 map[string]*plugintypes.NodeDeployCapacity, m2 map[string]*plugintypes.NodeDeployCapacity) map[string]*plugintypes.NodeDeployCapacity {
-	if m1 == nil {
-		return m2
+// mergeCapacity accumulates the weighted sums of one more plugin (m2) into m1 and keeps only the
+// nodes offered by both; with first set m1 is ignored and m2 starts the accumulation.
+func (m Manager) mergeCapacity(m1 map[string]*plugintypes.NodeDeployCapacity, m2 map[string]*plugintypes.NodeDeployCapacity, first bool) map[string]*plugintypes.NodeDeployCapacity {
+	resp := map[string]*plugintypes.NodeDeployCapacity{}
+	if first {
+		for nodename, info2 := range m2 {
+			resp[nodename] = &plugintypes.NodeDeployCapacity{
+				Capacity: info2.Capacity,
+				Rate:     info2.Rate * info2.Weight,
+				Usage:    info2.Usage * info2.Weight,
+				Weight:   info2.Weight,
+			}
+		}
+		return resp
 	}
 
-	resp := map[string]*plugintypes.NodeDeployCapacity{}
 	for nodename, info1 := range m1 {
 		// all the capacities should > 0
 		if info2, ok := m2[nodename]; ok {
